@@ -234,10 +234,16 @@ fn normalise_acc_modules(rendering: &str) -> Option<String> {
 fn normalise_rej_messages(rendering: &str, lib_rs: &str, o2o_messages: &std::collections::BTreeSet<String>) -> String {
     normalise_rej(rendering, lib_rs)
         .lines()
-        .map(|l| l.rsplitn(2, '|').nth(1).unwrap_or(l).to_string())
-        .filter(|l| {
-            let msg = l.splitn(3, '|').nth(2).unwrap_or("");
-            o2o_messages.contains(msg) || msg.starts_with("proc-macro derive panicked")
+        .filter_map(|l| {
+            let mut it = l.rsplitn(2, '|');
+            let pos = it.next().unwrap_or("");
+            let head = it.next().unwrap_or(l).to_string();
+            let msg = head.splitn(3, '|').nth(2).unwrap_or("");
+            if o2o_messages.contains(msg) || msg.starts_with("proc-macro derive panicked") || pos.ends_with(":d") {
+                Some(head)
+            } else {
+                None
+            }
         })
         .collect::<Vec<_>>()
         .join("\n")
@@ -263,7 +269,8 @@ fn normalise_rej(rendering: &str, lib_rs: &str) -> String {
         let col = pos.split(':').nth(1).unwrap_or("");
         let line: usize = pos.split(':').nth(2).and_then(|x| x.parse().ok()).unwrap_or(own_line);
         let (start, k) = starts.iter().rev().find(|(s, _)| *s <= line).copied().unwrap_or((0, usize::MAX));
-        out.push((k, seq, format!("m{}|{}|+{}:{}", k, head, own_line.saturating_sub(start), col)));
+        let flag = pos.split(':').nth(3).unwrap_or("-");
+        out.push((k, seq, format!("m{}|{}|+{}:{}:{}", k, head, own_line.saturating_sub(start), col, flag)));
     }
     // stable: diagnostics of one module keep their emitted order
     out.sort_by_key(|x| (x.0, x.1));
@@ -389,7 +396,18 @@ fn render_rej_once(dir: &Path, target: &Path, shim: &Path, rc: &RunCfg) -> Resul
         while outer["expansion"].is_object() && outer["expansion"]["span"].is_object() {
             outer = &outer["expansion"]["span"];
         }
-        r.push_str(&format!("{}|{}|{}:{}:{}\n", m["level"].as_str().unwrap_or("?"), m["message"].as_str().unwrap_or("?").replace('\n', "\\n").replace('\r', ""), sp["line_start"], sp["column_start"], outer["line_start"]));
+        // does the diagnostic sit on the derive's own call site (no error code, expansion chain
+        // through `#[derive(o2o)]`)?  Then it is the derive's, whatever its text
+        let mut by_derive = false;
+        let mut s2 = sp;
+        while s2["expansion"].is_object() {
+            if s2["expansion"]["macro_decl_name"].as_str().map(|n| n.contains("derive(o2o)")).unwrap_or(false) {
+                by_derive = true;
+            }
+            s2 = &s2["expansion"]["span"];
+        }
+        let by_derive = by_derive && m["code"].is_null();
+        r.push_str(&format!("{}|{}|{}:{}:{}:{}\n", m["level"].as_str().unwrap_or("?"), m["message"].as_str().unwrap_or("?").replace('\n', "\\n").replace('\r', ""), sp["line_start"], sp["column_start"], outer["line_start"], if by_derive { "d" } else { "-" }));
         n += 1;
     }
     if n == 0 {
